@@ -33,7 +33,8 @@ def floors(ctx):
     q = ctx.tier == "quick"
     return {"evaluations": 1500 if q else 15000, "links_checked": 5000 if q else 50000, "self_entries": 100,
             "repeated_entries": 100, "empty_rows": 100, "generator_rows": 50, "cases_with_prior_links": 200,
-            "readback_cases": 300, "error_inputs": 100, "side_array_duplicates": 30, "exotic_truthy_cells": 200}
+            "readback_cases": 300, "error_inputs": 100, "side_array_duplicates": 30, "exotic_truthy_cells": 200,
+            "big_inputs": 4}
 
 
 def cell_value(c):
@@ -263,9 +264,26 @@ def gen_case(rng, big=False):
     return {"history": history, "builder": "matrix", "cls": cls, "side": side, "matrix": matrix}
 
 
+def big_cases():
+    """Sizes around 256/257 and beyond ("any size"): diagonal, repeated and dense entries."""
+    r = random.Random(1111)
+    for n in (257, 300):
+        history = [["mkv", f"V{i}", "Vertex", [], []] for i in range(n)]
+        names = [f"V{i}" for i in range(n)]
+        matrix = [[["t", r.randrange(len(TRUTHY))] if (i == j or r.random() < 0.01) else ["f", r.randrange(len(FALSY))]
+                   for j in range(n)] for i in range(n)]
+        yield {"history": history, "builder": "matrix", "cls": r.choice(["DirectedEdge", "USub"]), "side": names, "matrix": matrix}
+        adj = [[names[i], [names[i], names[(i * 3 + 1) % n], names[(i * 3 + 1) % n]]] for i in range(n)]
+        yield {"history": history, "builder": "dict", "cls": r.choice(["DSub", "UnDirectedEdge"]), "adj": adj, "rowkind": ["list", "gen", "tuple"]}
+
+
 def run(ctx):
     rng = random.Random(ctx.seed * 77773 + ctx.shard * 19 + 11)
     quick = ctx.tier == "quick"
+    if ctx.shard == 0:
+        for case in big_cases():
+            run_case(ctx, case)
+            ctx.count("big_inputs")
     for i in range(8000 if quick else 20000):
         case = gen_case(rng, big=(not quick and i % 10 == 0))
         run_case(ctx, case)
